@@ -51,6 +51,7 @@ pub fn env_outcome(id: &'static str, case: &EnvCase) -> Outcome {
                 classes: vec![
                     ("env_cases", 1),
                     ("env_steps", f.steps),
+                    ("env_quiet_steps_no_getter_called", f.quiet_steps),
                     ("env_instructions", f.instructions),
                     ("env_instructions_skipped", f.skipped_instr),
                     ("env_empty_steps", f.empty_steps),
@@ -172,7 +173,7 @@ fn exhaustive_env_part(name: &str, k: usize, seeds: u64, toggle_off: bool) -> Pa
                     instrs.push(small_instr(code, a));
                 }
                 let steps = vec![StepSpec { toggle: None, instrs: seed_step }, StepSpec { toggle: if toggle_off { Some(false) } else { None }, instrs }, StepSpec { toggle: if toggle_off { Some(true) } else { None }, instrs: vec![] }];
-                Some(Case::Env(EnvCase { kind_assets: if market { 2 } else { 0 }, levels: 3, ticks: vec![2, 2], t0: 0, step_size: 16, trading: true, seed: seed.wrapping_mul(0x9E37_79B9_7F4A_7C15) ^ crate::engine::verif_seed(), steps, drain: true, exact_vols: false }))
+                Some(Case::Env(EnvCase { kind_assets: if market { 2 } else { 0 }, levels: 3, ticks: vec![2, 2], t0: 0, step_size: 16, trading: true, seed: seed.wrapping_mul(0x9E37_79B9_7F4A_7C15) ^ crate::engine::verif_seed(), steps, drain: true, exact_vols: false, quiet_steps: 0 }))
             }),
             description: format!("after a fixed seeding step (2 bids, 2 asks resting per asset), every batch of exactly {} instructions over a 12-instruction alphabet (4 limit orders incl. crossing ones, 2 market orders, 3 cancels incl. one of an order of the same batch, 3 modifies: crossing re-price, pure reduction, re-price with volume) x {} seeds x {{Env<3>, MarketEnv<2,3>}}{}, then an empty step and two draining steps", k, seeds, if toggle_off { ", batch processed while trading is disabled" } else { "" }),
         },
@@ -240,7 +241,7 @@ fn exhaustive_batch_sizes(name: &str, overfull: bool, seeds: u64) -> Part<Case> 
                 }
                 steps.push(StepSpec { toggle: None, instrs });
                 steps.push(StepSpec { toggle: None, instrs: vec![] });
-                Some(Case::Env(EnvCase { kind_assets: if market { 2 } else { 0 }, levels: 3, ticks: vec![2, 2], t0: 5, step_size, trading: true, seed: seed.wrapping_mul(0x9E37_79B9_7F4A_7C15) ^ crate::engine::verif_seed() ^ n as u64, steps, drain: !overfull, exact_vols: false }))
+                Some(Case::Env(EnvCase { kind_assets: if market { 2 } else { 0 }, levels: 3, ticks: vec![2, 2], t0: 5, step_size, trading: true, seed: seed.wrapping_mul(0x9E37_79B9_7F4A_7C15) ^ crate::engine::verif_seed() ^ n as u64, steps, drain: !overfull, exact_vols: false, quiet_steps: 0 }))
             }),
             description: format!("every batch size n in 1..=150 after a seeding step: n instructions (new limit orders on both sides, every fifth crossing, up to four cancels / modifies of the seeded orders) processed in a step of {} time units x {} seeds x {{Env<3>, MarketEnv<2,3>}}, then an empty step{}", if overfull { "about n/2, n-1 and n/3" } else { "n, n+1 and 3n+7" }, seeds, if overfull { "" } else { " and two draining steps" }),
         },
@@ -272,7 +273,7 @@ fn exhaustive_step_counts(name: &str, max_k: usize) -> Part<Case> {
                     }
                     steps.push(StepSpec { toggle: None, instrs });
                 }
-                Some(Case::Env(EnvCase { kind_assets: if market { 2 } else { 0 }, levels: 2, ticks: vec![2, 2], t0: 0, step_size: 10, trading: true, seed: k as u64 ^ crate::engine::verif_seed(), steps, drain: true, exact_vols: false }))
+                Some(Case::Env(EnvCase { kind_assets: if market { 2 } else { 0 }, levels: 2, ticks: vec![2, 2], t0: 0, step_size: 10, trading: true, seed: k as u64 ^ crate::engine::verif_seed(), steps, drain: true, exact_vols: false, quiet_steps: 0 }))
             }),
             description: format!("runs of exactly k steps for k in {{255, 256, 257, 511, 512, 513, 1023, 1024, 1025, 2047, 2048, 2049, 4095, 4096, 4097}} (up to {}) x {{Env<2>, MarketEnv<2,2>}}, one new order every 37 steps and in each of the last three steps", max_k),
         },
